@@ -197,6 +197,15 @@ def simd_axis_sse(ctx, tier, olc_only=False, fns=None):
     return res
 
 
+def _debug_only_rule(ctx, fn, keypred):
+    """a rule that reads assertion-enabled code, for a property whose quick configuration list has no such member: run it on the
+    assertion-enabled baseline and keep the findings whose key matches"""
+    cfg = ctx.config(D)
+    r = fn(cfg)
+    r.findings = [x for x in r.findings if keypred(x.key)]
+    return r
+
+
 def tsan_axis(ctx, tier):
     """code compiled only under UNODB_DETAIL_THREAD_SANITIZER that replaces a checked function body: olc_inode_16::find_child has a
     scalar search of its own in the ThreadSanitizer build (the build the project's CI runs its concurrency tests under). The
@@ -313,7 +322,7 @@ PROPERTIES['C04'] = {
     'configs': three,
     'rules': [keep_keys(olc('LOCK-1'), lambda k: k.startswith(('LOCK-1a', 'LOCK-1c')), 'a result returned without validation is a wrong answer - C03 / C09 - not a use of reclaimed memory'), olc('LOCK-5'), R(olcrules.lock6), R(olcrules.lock6b),
               R(qsbr.q_free_paths), R(qsbr.q_rotation), R(qsbr.q_barriers), R(lambda cfg: qsbr.q_orphans(cfg, parts=('7', '9'))), R(qsbr.q_tagging), R(qsbr.q_last_out), R(qsbr.q_register_epoch), R(qsbr.q_wrap), R(qstate.qs1),
-              R(lambda cfg: qsbr.q_rotation(cfg, parts=('3',))), R(qsbr.q_cas), R(lambda cfg: qsbr.q_orphans(cfg, parts=('8',))), R(qsbr.q_tail_link), R(qsbr.q_sink), R(qsbr.q_list_rmw), keep_keys(R(acc.acc4), lambda k: k.startswith(('ACC-4:loop', 'ACC-4:delete_root')), 'which counters clear() resets is C10'), scoped(R(exc.exc1), _qsbr_roots, 'QSBR thread start / resume / deferred-deallocation request'), R(ptr.ptr3), keep_keys(R(point.lock11), lambda k: k.endswith(':acts'), 'only where the failing side of the lock step goes on to change the tree (write guard, store, retire): a writer acting on a node that failed its lock step unlinks or retires nodes it has no right to; a definitive ANSWER after a failed step is a wrong result - C03 / C09; a retry in place is a hang - C14'), olc_side(R(lambda cfg: nodes.mut1(cfg, parts=('reclaim',))))],
+              R(lambda cfg: qsbr.q_rotation(cfg, parts=('3',))), R(qsbr.q_cas), R(lambda cfg: qsbr.q_orphans(cfg, parts=('8',))), R(qsbr.q_tail_link), R(qsbr.q_sink), R(qsbr.q_list_rmw), keep_keys(R(acc.acc4), lambda k: k.startswith(('ACC-4:loop', 'ACC-4:delete_root')), 'which counters clear() resets is C10'), scoped(R(exc.exc1), _qsbr_roots, 'QSBR thread start / resume / deferred-deallocation request'), keep_keys(R(ptr.ptr3), lambda k: 'span-length-width' not in k, 'a wrapped element count misreports the size of the view, it does not touch reclaimed memory - C17'), keep_keys(R(point.lock11), lambda k: k.endswith(':acts'), 'only where the failing side of the lock step goes on to change the tree (write guard, store, retire): a writer acting on a node that failed its lock step unlinks or retires nodes it has no right to; a definitive ANSWER after a failed step is a wrong result - C03 / C09; a retry in place is a hang - C14'), olc_side(R(lambda cfg: nodes.mut1(cfg, parts=('reclaim',))))],
     'technique': 'static analysis: relational typestate dataflow (validate-before-dereference, obsolete-before-retire), who-may-construct rule for immediate-deleter owners; the QSBR who-may-free / ordering / control-dependence rules of C05',
     'explanation': 'Structural safety conditions of "no use of reclaimed memory": LOCK-1, dereference part (no pointer obtained from a node is followed before the read section on that node is re-validated, so a stale pointer to a retired node is never dereferenced; the "no unvalidated result" part of LOCK-1 is C03 / C09) '
                    'and LOCK-5 (every node an OLC operation hands to reclamation was unlocked-and-obsoleted by it first, so readers still holding a section on it restart; checked at restart returns too - a node retired and then abandoned by a restart is still linked), on every path of every OLC function, both key kinds; '
@@ -347,7 +356,7 @@ PROPERTIES['C14'] = {
 PROPERTIES['C16'] = {
     'level': 'other',
     'configs': two,
-    'rules': [R(lock7a), olc('LOCK-7'), olc('ROLE'), R(ptr.ptr2), R(cfgdiff.assert_range), R(cfgdiff.assert_optimistic), R(lockword.lw6), R(counters.assert3),
+    'rules': [R(lock7a), olc('LOCK-7'), olc('ROLE'), R(ptr.ptr2), R(cfgdiff.assert_range), R(cfgdiff.assert_optimistic), R(lockword.lw6), R(counters.assert3), R(cfgdiff.assert_limits),
               keep_keys(R(qsbr.q_barriers), lambda k: k.startswith('Q-5:order'), 'only the memory-order table: in the statistics-on builds the deallocation-statistics mutex adds happens-before edges on some schedules that the statistics-off builds do not have, so an access of the QSBR state word or the orphan lists that is weaker than the table demands is ordered in one configuration and racy in the other; the remaining parts of Q-5 are C04 / C05')],
     'technique': 'static analysis: configuration differencing (statement-signature alignment of every function across single-axis flips of the build configuration with an effect classifier), API-surface differencing, typestate dataflow for read-section overwrite',
     'multi_rules': [R(cfgdiff.run_matrix), R(simd_axis)],
@@ -358,7 +367,7 @@ PROPERTIES['C16'] = {
                    'PTR-2 (assertion-enabled configurations): the per-thread registry of live qsbr_ptr values is exact - every member function that changes the wrapped address unregisters the old value before and registers the new one after, on every path - so the three rejection assertions fire only when a wrapper is really alive (that they exist at all is C17, PTR-4: a missing assertion does not make a legal run abort): a stale registration makes the next legal quiescent state abort. LW-6 (assertion-enabled configurations): a read section clears its lock pointer on exactly the paths on which the lock-level call gave its read_lock_count unit back (check: on failure; try_read_unlock: always - conditions read off the lock code itself), so the unit is never given back twice. ASSERT-2 (assertion-enabled configurations): the copying node constructors of the OLC index - they build the larger / smaller replacement before the write guards are taken, from a node that is only read-locked - assert nothing about their source node (unvalidated optimistic reads: an assertion on them aborts a legal interleaving that the release build resolves by a failed upgrade and a restart). ASSERT-1 (assertion-enabled configurations): a debug-only counter compared with a narrower stored count cannot outgrow it (loop trip count capped by the node capacity <= 2^w - 1; a full I256 has 256 children and an 8-bit count). '
                    'LOCK-7b / ROLE: a read section is not used after it has been ended or handed to a callee that consumes it, and helpers receive the section their node argument was read under - in release builds a consumed section still carries its lock pointer and the slip goes unnoticed, in assertion-enabled builds the pointer is null and the next use crashes: behaviour would depend on the configuration. '
                    'LOCK-7a: in no function of the OLC code is a read section that may still be open overwritten by assignment. An overwritten open section loses its unit of the debug-build read_lock_count, which optimistic_lock::check_on_dealloc '
-                   'asserts to be zero when the node is freed - the one internal assertion that legal usage (scan, then remove) could trip. ASSERT-3 (assertion-enabled configurations) the integer assertions inside the copy loops that rebuild a node from its neighbour class (I16 from a shrinking I48: `i < 255`; I48 from a growing I16: `i == capacity`) cannot fail: complete exploration of the finite state space (block, integer locals, occupied source slots seen so far), memory unknown except that exactly 16 of the 256 index slots of the shrinking I48 are occupied (ACC-1: an I48 shrinks exactly at 17 children; init empties the slot of the removed child first). Q-5 (memory-order table only): every atomic access of the QSBR state word and the orphan lists has the order the table demands in every configuration - the statistics-on builds take a mutex around the deallocation statistics that the statistics-off builds do not have, so a weaker order is masked on some schedules in one configuration and a data race in the other.',
+                   'asserts to be zero when the node is freed - the one internal assertion that legal usage (scan, then remove) could trip. ASSERT-4 (assertion-enabled configurations) an overflow-precondition assertion `x <= numeric_limits<T>::max() - y` takes the limit of a type at least as wide as the quantities it bounds (the 16-bit size_type of the encoder in place of std::size_t makes it fire on keys longer than 64 KiB). ASSERT-3 (assertion-enabled configurations) the integer assertions inside the copy loops that rebuild a node from its neighbour class (I16 from a shrinking I48: `i < 255`; I48 from a growing I16: `i == capacity`) cannot fail: complete exploration of the finite state space (block, integer locals, occupied source slots seen so far), memory unknown except that exactly 16 of the 256 index slots of the shrinking I48 are occupied (ACC-1: an I48 shrinks exactly at 17 children; init empties the slot of the removed child first). Q-5 (memory-order table only): every atomic access of the QSBR state word and the orphan lists has the order the table demands in every configuration - the statistics-on builds take a mutex around the deallocation statistics that the statistics-off builds do not have, so a weaker order is masked on some schedules in one configuration and a data race in the other.',
     'decides': 'optional features (statistics, debug accounting) never write core state and core control flow never depends on them; assertion conditions are pure; balance of the debug read-section accounting on every path (typestate); the three rejection assertions exist',
     'does_not_decide': 'the aarch64 (NEON) and portable variants (not compiled on this platform); that every assertion is implied by the documented preconditions (general program verification) - only the accounting assertions LOCK-7a / PTR-4 are tied to code paths',
     'trusted_base': ['clang 14 front end', 'usa extractor and rule engine', 'semantics table of the x86 intrinsics used (cmpeq_epi8/epi64, max_epu8, packs_epi32, permute4x64, movemask_epi8, testz): Intel intrinsics guide'],
@@ -454,8 +463,10 @@ PROPERTIES['C12'] = {
     'level': 'other',
     'configs': one,
     'rules': [R(enc.enc1), R(enc.encaff), R(lambda cfg: enc.enc3(cfg, mode='inverse')), R(enc.enc5), R(enc.enc6), R(enc.enc7), R(enc.enc8)],
+    'extra_configs': lambda tier: [D],
+    'multi_rules': [R(lambda ctx, tier: _debug_only_rule(ctx, cfgdiff.assert_limits, lambda k: any(w in k for w in ('ensure_', 'encode', 'decode', 'append'))))],
     'technique': 'static analysis: encoder/decoder sibling agreement (overload sets, widths), affine x interval abstract interpretation of both sides (inverse biases), class-wise abstract walk of the float decoder, use-after-free typestate on the buffer pointer',
-    'explanation': 'Decoding inverts encoding: ENC-1 encoder and decoder overload sets agree and every fixed-size component moves the offset by exactly sizeof(T) on both sides; ENC-2 the decoder applies the byte swap to exactly the bytes it copied out; '
+    'explanation': 'ASSERT-4 (on the assertion-enabled baseline) the overflow-precondition assertion of the encoder takes the limit of a type as wide as the offsets it bounds - with the 16-bit size_type it aborts on a legal key longer than 64 KiB, which then has no encoding to decode. Decoding inverts encoding: ENC-1 encoder and decoder overload sets agree and every fixed-size component moves the offset by exactly sizeof(T) on both sides; ENC-2 the decoder applies the byte swap to exactly the bytes it copied out; '
                    'ENC-AFF each signed decode is exactly u - 2^(w-1), the inverse of the encode bias v + 2^(w-1) (affine x interval, whole domain, no wrap); ENC-3 the decoder maps the code classes (all ones, max-1, 0, msb set, msb clear) to canonical quiet NaN, +inf, -inf, bits^msb, ~bits - the exact inverses of the encoder classes; '
                    'ENC-5 buffer growth copies the encoded bytes before the old block is released or replaced (use-after-free typestate on the buffer pointer), releases it iff heap-allocated, reset only zeroes the offset; ENC-6 capacity discipline of ensure_available / ensure_capacity (request off + req, allocate and record bit_ceil of it). ENC-8 every encode / decode / reset member returns a reference to the object itself (`T &`, `return *this`): the documented use is chaining, and a member returning a copy lets the rest of the chain run on a temporary while the object keeps a stale offset.',
     'decides': 'inverse relation of every overload pair; fixed component sizes; growth/reset keep the bytes',
